@@ -104,16 +104,13 @@ Theorem C09_call_is_paste_ok : forall fuel inc macroses d cp name ops rest st bo
   pass0_items fuel inc macroses (S d) ((cp, IInstr (OCustom name) ops) :: rest) st = Ok r ->
   pass0_items fuel inc macroses (S d) (its ++ rest) st0 = Ok r.
 Proof. exact call_is_paste_ok. Qed.
-(** the expansion hands over ONE code segment at the current address, or nothing *)
+(** the expansion hands over ONE code segment at the current address (possibly without items) *)
 Theorem C09_expansion_shape : forall fuel inc macroses line name ops st body,
   lookup name macroses = Some body ->
   Forall (fun ln => neutral_line ln = true) (substitute ops body) ->
   macro_expand fuel inc macroses line name ops st =
     bind (body_items fuel inc ops body st) (fun x =>
-    Ok (fst x, match snd x with
-               | [] => []
-               | its => [{| items := its; seg_t := SCode; address := address (last_seg st) |}]
-               end)).
+    Ok (fst x, [{| items := snd x; seg_t := SCode; address := address (last_seg st) |}])).
 Proof. exact expand_neutral. Qed.
 (** items are processed left to right, and what is accepted with d nesting levels left is accepted identically with more *)
 Theorem C09_items_in_order : forall fuel inc macroses depth a b st,
